@@ -50,9 +50,11 @@ theorem determineFsLayout_ok {o : FormatOpts} {t : Nat} {L : FsLayout} (h : dete
   obtain ⟨rfl, hb⟩ := chkDiv_ok.mp hs
   split at h
   · cases h
-  · rename_i h255
-    obtain ⟨ft, hm, res, spf, rfl, h2⟩ := tryTypes_ok h
-    exact ⟨c, hc, hb, by omega, rfl, hm, h2⟩
+  · split at h
+    · cases h
+    · rename_i h255
+      obtain ⟨ft, hm, res, spf, rfl, h2⟩ := tryTypes_ok h
+      exact ⟨c, hc, hb, by omega, rfl, hm, h2⟩
 
 theorem formatBpb_ok {o : FormatOpts} {t : Nat} {b : FBpb} {ft : FatType} (h : formatBpb o t = .ok (b, ft)) :
     ∃ L s16, determineFsLayout o t = .ok L ∧ spf16Of L = .ok s16 ∧ L.fatType = ft ∧ b = mkBpb o t L s16 ∧
@@ -128,9 +130,11 @@ theorem formatChecked_err {o : FormatOpts} {t : Nat} {e : Err} (h : formatChecke
           · exact Or.inl (chkDiv_err.mp h).1
           · split at h
             · cases h; exact Or.inr rfl
-            · rcases tryTypes_err h with h | ⟨h, _⟩
-              · exact Or.inr h
-              · exact Or.inl h
+            · split at h
+              · cases h; exact Or.inr rfl
+              · rcases tryTypes_err h with h | ⟨h, _⟩
+                · exact Or.inr h
+                · exact Or.inl h
       · rcases bind_err_iff.mp h with h | ⟨s, _, h⟩
         · unfold spf16Of at h
           repeat' split at h
